@@ -20,15 +20,16 @@ type pkgRef struct{ p *ssa.Package }
 type typeRef struct{ t types.Type }
 
 type Env struct {
-	ex    *Exec
-	st    *State
-	old   *State
-	vars  map[string]EV
-	bound map[string]EV // quantified variables and macro parameters (take precedence over everything)
-	frame *Frame
-	loop  *Loop
-	pkg   *ssa.Package
-	depth int
+	ex     *Exec
+	st     *State
+	old    *State
+	vars   map[string]EV
+	bound  map[string]EV // quantified variables and macro parameters (take precedence over everything)
+	frame  *Frame
+	loop   *Loop
+	pkg    *ssa.Package
+	depth  int
+	oldMid bool // old() refers to a state inside the function (iteration start): locals are visible there
 }
 
 type bindErr struct{ msg string }
@@ -243,7 +244,7 @@ func (env *Env) ident(name string) (EV, error) {
 	if v, ok := env.bound[name]; ok {
 		return v, nil
 	}
-	inOld := env.old != nil && env.st == env.old
+	inOld := env.old != nil && env.st == env.old && !env.oldMid
 	if v, ok := env.vars[name]; ok && (env.frame == nil || inOld) {
 		return v, nil
 	}
@@ -304,6 +305,29 @@ func (env *Env) ident(name string) (EV, error) {
 	}
 	if v, ok := env.vars[name]; ok {
 		return v, nil
+	}
+	// free variables of a function literal under contract
+	if env.frame != nil || ex.fn.Parent() != nil {
+		fr := env.st.Frames[1]
+		if env.frame != nil {
+			fr = env.st.Frames[env.frame.ID]
+		}
+		if fr != nil {
+			for i, fv := range fr.Fn.FreeVars {
+				if fv.Name() == name && i < len(fr.Free) {
+					t := deref(fv.Type())
+					switch b := fr.Free[i].(type) {
+					case AddrV:
+						return EV{V: ex.loadLoc(env.st, b.L), T: t}, nil
+					case Term:
+						if kindOf(t) == KStruct {
+							return EV{V: StructRefV{b}, T: t}, nil
+						}
+						return EV{V: b, T: t}, nil
+					}
+				}
+			}
+		}
 	}
 	// package-level names
 	if env.pkg != nil {
